@@ -34,6 +34,58 @@ def build_seams(tree):
     return seam, pq
 
 
+def timing_histories(rng, thorough):
+    """strict histories (the clock moves only at quiescence with nothing in flight) probing each computed retry time from just
+    before and just after, across TERM/restart, under ALRM, with queue lifetimes from 0 upwards, and with several due messages"""
+    hs = []
+    n = 0
+
+    def mk(kind, msgs, outcomes, script, **kw):
+        nonlocal n
+        n += 1
+        h = {"id": "t%s%d" % (kind, n), "seed": rng.randrange(1 << 30), "messages": msgs, "outcomes": outcomes, "script": script, "strict": 1,
+             "conc": (10, 20), "announce": (120, 120), "drain_rounds": 50}
+        h.update(kw)
+        hs.append(h)
+
+    def msg(i, k, rc):
+        return {"body": b"Subject: t\n\nbody\n", "sender": b"ts%d@origin.test" % i, "rcpts": rc}
+    reps = 3 if thorough else 1
+    for rep in range(reps):
+        for nz in (1, 2, 3, 5):
+            i = len(hs)
+            rc = [b"t%dl@local.test" % i, b"t%dr@remote.test" % i]
+            oc = {rc[0].decode(): "Z" * nz + "K", rc[1].decode(): "Z" * max(1, nz - 1) + rng.choice("KD"), "ts%d@origin.test" % i: "K"}
+            probe = []
+            for _ in range(2 * nz + 1):
+                probe += [("nextdue", -1), ("nextdue", 0), ("answer", "fifo")]
+            mk("A", [msg(i, 0, rc)], oc, [("inject", 0), ("answer", "fifo")] + probe)
+            # the same across a clean restart between the failure and the retry, and with ALRM
+            mk("R", [msg(i, 0, rc)], dict(oc), [("inject", 0), ("answer", "fifo"), ("termrestart",), ("nextdue", -1), ("nextdue", 0), ("answer", "fifo"), ("termrestart",)] + probe)
+            mk("S", [msg(i, 0, rc)], dict(oc), [("inject", 0), ("answer", "fifo"), ("advance", 7), ("signal", "ALRM"), ("answer", "fifo"), ("signal", "ALRM"), ("answer", "lifo")] + probe[:6])
+        for life in (0, 1, 100, 399, 400, 401, 3000):
+            i = len(hs)
+            rc = [b"t%dl@local.test" % i, b"t%dr@remote.test" % i]
+            oc = {rc[0].decode(): "Z" * 30, rc[1].decode(): "Z" * 30, "ts%d@origin.test" % i: "K"}
+            probe = []
+            for _ in range(8):
+                probe += [("nextdue", -1), ("nextdue", 0), ("answer", "fifo")]
+            mk("L", [msg(i, 0, rc)], oc, [("inject", 0), ("answer", "fifo")] + probe, lifetime=life)
+        # several due messages on a channel with one slot: served earliest-due first after a long sleep of the clock
+        for v in range(2):
+            i = len(hs)
+            ms, oc, sc = [], {}, []
+            for k in range(3):
+                a = b"t%dm%d@local.test" % (i, k)
+                ms.append(msg(i, k, [a]))
+                oc[a.decode()] = "ZZK"
+                sc += [("inject", k), ("answer", "fifo"), ("advance", rng.choice([3, 17, 40]))]
+            oc["ts%d@origin.test" % i] = "K"
+            sc += [("advance", 5000), ("answer", "fifo"), ("answer", "fifo"), ("answer", "fifo"), ("advance", 20000), ("answer", "fifo"), ("answer", "fifo"), ("answer", "fifo")]
+            mk("O", ms, oc, sc, conc=(1, 1))
+    return hs
+
+
 def main():
     ap = argparse.ArgumentParser()
     ap.add_argument("--tier", default=os.environ.get("VERIF_TIER", "quick"))
@@ -95,8 +147,22 @@ def main():
         if r.returncode != 0:
             raise Infra("prioq seam failed")
         recs += [json.loads(l) for l in open(out)]
+    # ---- daemon level: retry histories on the real qmail-send with the virtual clock (clauses prefixed C15 of QSendMon)
+    import histories, qsengine
+    hs = timing_histories(ck.rng, thorough)
+    runs = qsengine.run_histories(ck, tree, hs)
+    tbad, tres = qsengine.judge(ck, runs)
+    ck.add_tlc("QSendTrace", tres)
+    ck.cov["daemon_retry_histories"] = len(runs)
+    ck.cov["delivery_attempts_timed"] = sum(1 for r in runs for e in r["ev"] if e["op"] == "delcmd")
+    for r in runs:
+        ck.count("hist" + str(r["h"]["id"]), nontrivial=True)
+    ck.sample({"history": runs[0]["h"]["id"], "attempt_times": [(e["t"] - 100000000, e["n"], e["a"]) for e in runs[0]["ev"] if e["op"] == "delcmd"][:12]})
+    qsengine.report(ck, "C15", runs, tbad)
     if not recs:
-        raise Infra("no function-level seam available and the daemon-level path is not built yet")
+        log("C15: no function-level seam available: daemon-level histories only")
+        ck.cov["traces_validated_against_impl"] = len(runs)
+        ck.finish()
 
     recfile = ck.scratch.path("c15.ndjson")
     full = {"kind": "", "x": 0, "y": 0, "birth": 0, "now": 0, "c": 0, "res": 0, "n": 0, "ops": [], "mins": [], "drain": []}
